@@ -103,12 +103,14 @@ Theorem C10C01_act_exit_code_never_fails : forall R A fuel p st o trs w',
 Proof. exact act_exit_code_never_fails. Qed.
 Print Assumptions C10C01_act_exit_code_never_fails.
 
-(** REFUTED for failures located in before-assert: C10's minimal protocol reports a later failure of
-    [cleanup]; the executor keeps the before-assert failure. *)
-Theorem C10C01_verdict_after_before_assert_failure_refuted :
+(** Formerly REFUTED for failures located in before-assert (C10's model reported a later failure of [cleanup]
+    there).  Model/Prog.v now follows _continue_from_before_assert (the cleanup failure is swallowed): on the
+    former witness model and executor agree.  [C10C01_verdict_through_executor] can now be strengthened by
+    dropping its premise [f_phase f <> BeforeAssert]. *)
+Theorem C10C01_verdict_after_before_assert_failure_agrees :
   exists res f,
     run_case 10 [47%N] [] case_r [Out 1 [] []] = Ok res /\
     fr_failure (snd (full_execute (lower resolve_tbl assemble_in_order 10 TPass [47%N] [] case_r [Out 1 [] []]))) = Some f /\
-    f_phase f = BeforeAssert /\ f_status f = FFail /\ rs_verdict res = StHard /\ kind_of (rs_verdict res) <> f_status f.
-Proof. exact verdict_after_before_assert_failure_refuted. Qed.
-Print Assumptions C10C01_verdict_after_before_assert_failure_refuted.
+    f_phase f = BeforeAssert /\ f_status f = FFail /\ rs_verdict res = StFail /\ kind_of (rs_verdict res) = f_status f.
+Proof. exact verdict_after_before_assert_failure_agrees. Qed.
+Print Assumptions C10C01_verdict_after_before_assert_failure_agrees.
